@@ -270,8 +270,9 @@ def unlockItems (w : WS) : M Unit := do
   for st in w.stores do
     let r ← get
     if st.tracked && st.items > 0 && r.lockOwner.contains st.store then
-      call .l2Delete (.num st.items)
-        (fun s => { s with itemLock := fun k => if k = st.store then none else s.itemLock k })
+      -- a failing delete is remembered (`lastErr`) and the loop goes on to the next store; every caller only logs it
+      let _ ← attempt (call .l2Delete (.num st.items)
+        (fun s => { s with itemLock := fun k => if k = st.store then none else s.itemLock k }))
 
 def checkItems (w : WS) : M Unit := do
   for st in w.stores do
